@@ -75,7 +75,9 @@ class SynchronousDeferredRunTest(_DeferredRunTest):
     """
 
     def _run_user(self, function, /, *args, **kwargs):
-        d = defer.maybeDeferred(function, *args, **kwargs)
+        # (Not maybeDeferred(function, *args, **kwargs): a cleanup may take a
+        # keyword argument called 'f'.)
+        d = defer.maybeDeferred(lambda: function(*args, **kwargs))
         d.addErrback(self._got_user_failure)
         result = extract_result(d)
         return result
